@@ -263,6 +263,7 @@ func init() {
 			// successors
 			succProvider, succField := false, false
 			var argsVar *types.Var
+			var succByLoop *ast.RangeStmt // the successor loop itself, when what it ranges over is not a variable
 			ast.Inspect(v.loop.Body, func(nd ast.Node) bool {
 				as, ok := nd.(*ast.AssignStmt)
 				if !ok || len(as.Rhs) != 1 {
@@ -334,11 +335,13 @@ func init() {
 						switch f.selField(sel).Name() {
 						case "Type":
 							if loop, ok := f.enclosingLoop(src.expr).(*ast.RangeStmt); ok && loop.Value != nil && f.varOf(loop.Value) == f.varOf(sel.X) {
-								if af := f.selField(loop.X); af != nil && af.Name() == "Args" && f.loopComplete(loop) {
-									if f.isCall(f.deref(loop.X.(*ast.SelectorExpr).X), pathW+".ProvidedType.Provider") != nil {
+								lx := f.deref(loop.X) // the list may have been given a local name first
+								if af := f.selField(lx); af != nil && af.Name() == "Args" && f.loopComplete(loop) {
+									if f.isCall(f.deref(ast.Unparen(lx).(*ast.SelectorExpr).X), pathW+".ProvidedType.Provider") != nil {
 										succProvider = true
 										if argsVar == nil {
 											argsVar = fi.varOf(succLoop.X)
+											succByLoop = succLoop
 										}
 									}
 								}
@@ -466,7 +469,7 @@ func init() {
 			okCmp, okPush := false, false
 			ast.Inspect(v.loop.Body, func(nd ast.Node) bool {
 				rs, ok := nd.(*ast.RangeStmt)
-				if !ok || argsVar == nil || fi.varOf(rs.X) != argsVar || rs.Value == nil {
+				if !ok || rs.Value == nil || !(argsVar != nil && fi.varOf(rs.X) == argsVar || argsVar == nil && succByLoop != nil && rs == succByLoop) {
 					return true
 				}
 				succ := fi.varOf(rs.Value)
